@@ -9,7 +9,7 @@ CONSTANTS
   MaxNlv = 1
   DoEmit = FALSE
   Tol = 1
-  PairsMaxN = 60
+  PairsMaxN = 200
   Impl = TRUE
 CONSTRAINT Diag
 POSTCONDITION TraceAccepted
